@@ -82,7 +82,12 @@ impl G {
     }
     *self.rng.pick(&[(-1000, 1000), (0, 100), (-50, 50), (1, 9), (-9, -1), (-100, 100), (0, 9)])
   }
-  fn push_sig(&mut self, s: Sig) {
+  fn push_sig(&mut self, mut s: Sig) {
+    if let Some(c) = self.class(&s.cls) {
+      if c.private {
+        s.modpriv = true;
+      }
+    }
     self.sigs.push(s);
   }
   fn plain_sig(&self, cls: &str, recv: Option<Ty>, name: &str, params: Vec<(String, Ty, R)>, ret: Ty, rr: R, module: usize, level: u32, cost: u64, pure: bool) -> Sig {
@@ -96,7 +101,7 @@ impl G {
     let np = self.rng.below(if is_method { 3 } else { 4 });
     let mut params = vec![];
     for _ in 0..np {
-      let t = self.pick_ty();
+      let t = self.pick_ty(module);
       let t = if matches!(t, Ty::V(_)) && self.rng.chance(1, 2) { Ty::Int } else { t };
       let r = if t == Ty::Int { self.int_param_range() } else { self.dflt(&t) };
       let n = self.fresh("p");
@@ -113,7 +118,7 @@ impl G {
       }
     }
     let ret = {
-      let t = self.pick_ty();
+      let t = self.pick_ty(module);
       if matches!(t, Ty::V(_)) {
         Ty::Int
       } else {
@@ -227,7 +232,7 @@ impl G {
       "mod" => (Ty::Int, (-100, 100), (-9972, 9972)),
       "str" => (Ty::Str, (0, 20), (0, 20 + 12 * maxtrips)),
       "class" => {
-        let cs: Vec<Ty> = self.pool.iter().filter(|t| matches!(t, Ty::C(n, _) if n != "List") && !self.is_rec(t) && self.rank(t, &mut vec![]) < 1000).cloned().collect();
+        let cs: Vec<Ty> = self.vpool(module).into_iter().filter(|t| matches!(t, Ty::C(n, _) if n != "List") && !self.is_rec(t) && self.rank(t, &mut vec![]) < 1000).collect();
         if cs.is_empty() {
           (Ty::Int, (-1000, 1000), radd((-1000, 1000), (per.0 * maxtrips, per.1 * maxtrips)))
         } else {
@@ -297,7 +302,7 @@ impl G {
     }
     // allocation in the body
     if self.rng.chance(if loops_prof { 2 } else { 1 }, 5) {
-      let cs: Vec<Ty> = self.pool.iter().filter(|t| self.fields_of(t).is_some() && self.fields_accessible(t, &bcx)).cloned().collect();
+      let cs: Vec<Ty> = self.vpool(module).into_iter().filter(|t| self.fields_of(t).is_some() && self.fields_accessible(t, &bcx)).collect();
       if !cs.is_empty() {
         let t = cs[self.rng.below(cs.len())].clone();
         let e = self.gen(&t, &bcx, 1, ANY);
@@ -601,7 +606,7 @@ impl G {
       }
       2 => {
         // builder of a recursive value
-        let recs: Vec<Ty> = self.pool.iter().filter(|t| self.is_rec(t)).cloned().collect();
+        let recs: Vec<Ty> = self.vpool(module).into_iter().filter(|t| self.is_rec(t)).collect();
         let mut done = false;
         if !recs.is_empty() {
           let t = recs[self.rng.below(recs.len())].clone();
@@ -936,7 +941,7 @@ impl G {
     let mut guard = 0;
     while base_lines + count_lines(&lines) < LINE_BUDGET - 14 && self.cost < MAINCAP && guard < 14 {
       guard += 1;
-      let ty = self.pick_ty();
+      let ty = self.pick_ty(main_mod);
       let saved = self.cost;
       self.cost = 0;
       let e = self.gen(&ty, &cx, 3, self.wide(&ty));
